@@ -17,7 +17,8 @@ import (
 
 func init() {
 	register(&Property{
-		ID: "C05",
+		ID:    "C05",
+		Yield: true,
 		Rule: "tracked sessions of 150..300 state-changing lines on one channel, each with a unique visible effect on the channel snapshot (fresh nick JOINs, PART/KICK/QUIT of a member, NICK rename chain, TOPIC t<n>, MODE +l <n>, +k key<n>, " +
 			"+o/-o/+v on members, 353 with new names); the specification states S_0,S_1,.. are produced by the relational tracker model. Foreground and background harness handlers for every verb take exactly one tracker call " +
 			"(GetChannel, atomic under the tracker's lock): a foreground handler for line n first waits until the receive goroutine has logged line n+1 (so a broken loop could have applied it) and yields repeatedly, then its snapshot must equal S_n; " +
